@@ -37,16 +37,21 @@ def worklist_ops(prog, fn, wl_lid, seen=None, via=None):
 
 def depth_guard(sem, f, ins_call, maxdepth_names=('max_depth',)):
     """-> (D term, ok) : the insertion is dominated by D < max_depth"""
-    facts = sem.facts_at(f, ins_call.id)
+    facts = sorted(sem.facts_at(f, ins_call.id), key=repr)
+    weak = None
     for (t, pol) in facts:
         if t[0] == 'b' and len(t) == 4:
             op, l, r = t[1], t[2], t[3]
+            if op in ('==', '!='):
+                continue     # an equality test against the limit is not the depth guard (it may accompany it)
             if r[0] == 'v' and r[2] in maxdepth_names and ((op == '<' and pol) or (op == '>=' and not pol)):
                 return l, True
             if l[0] == 'v' and l[2] in maxdepth_names and ((op == '>' and pol) or (op == '<=' and not pol)):
                 return r, True
             if (r[0] == 'v' and r[2] in maxdepth_names) or (l[0] == 'v' and l[2] in maxdepth_names):
-                return (l if r[0] == 'v' and r[2] in maxdepth_names else r), False
+                weak = (l if r[0] == 'v' and r[2] in maxdepth_names else r)
+    if weak is not None:
+        return weak, False
     return None, False
 
 
@@ -137,7 +142,17 @@ def check_search(prog, rep, rule, sem, fn, kind):
                 src = fl.origins(real_args(c)[0])
                 if any(o[0] in ('call',) and o[1] in ('front', 'back', 'top') for o in src):
                     okr = any(a.k == 'while' for a in c.ancestors()) and not any(a.k in ('for', 'rangefor') for a in c.ancestors())
-    rule.check(okr, key + '|removal-order', rep.where(fn), fn.label(), 'matches are appended to the result in the order they leave the work list')
+    why_r = ''
+    if okr and rv[0] == 'v':
+        # nothing else may put elements into the result (another insert, or a callee that is handed the result by reference)
+        good = [c for c in fn.calls(name='push_back') if term(c.c[0]) == rv]
+        for m in sem.mods(fn).get(rv[1], []):
+            if m.k == 'var' or any(m is g or any(x is m for x in g.walk()) or any(x is g for x in m.walk()) for g in good):
+                continue
+            okr = False
+            why_r = 'the result vector is also filled at line %s (%s): those elements do not pass through the work list, so the result is no longer in breadth-first order' % (m.l, m.src(50))
+            break
+    rule.check(okr, key + '|removal-order', rep.where(fn), fn.label(), 'matches are appended to the result in the order they leave the work list, and only there', why_r)
     # the filter decides membership
     filt = [c for c in fn.calls() if c.get('op') == '()' and unwrap(c.c[0]).k == 'ref' and unwrap(c.c[0]).decl.get('name') == 'filter']
     rule.check(bool(filt), key + '|filter', rep.where(fn), fn.label(), 'the filter predicate is applied to each visited element')
